@@ -31,7 +31,7 @@ def _exc(f):
         return ('exc', type(e).__name__)
 
 
-def prog(style: int, kind: int, level: int, k: int,
+def prog(style: int, kind: int, level: int, k: int, cos: bool,
          o1: int, i1: int, j1: int, o2: int, i2: int, j2: int, o3: int, i3: int, j3: int) -> None:
     # style/kind/level/k are shard constants
     nops = N_LIST_OPS if style == 0 else N_DICT_OPS
@@ -47,7 +47,7 @@ def prog(style: int, kind: int, level: int, k: int,
             model = list(decl.items())
 
         class P(param.Parameterized):
-            s = cls(objects=decl)
+            s = cls(objects=decl, check_on_set=cos)
         inst = P()
         sel = inst.param.s if level == 1 else P.param.s
         events = []
@@ -174,15 +174,25 @@ def prog(style: int, kind: int, level: int, k: int,
                 accepted = True
             except ValueError:
                 accepted = False
-            check('C18.membership_current', accepted == (v in cur), dict(info, v=v))
+            if cos:
+                check('C18.membership_current', accepted == (v in cur), dict(info, v=v))
+            else:
+                # check_on_set=False: every value is accepted and an unknown one is added to the objects (without a name)
+                check('C18.membership_current', accepted, dict(info, v=v, cos=False))
+                if v not in cur:
+                    model.append((None, v))
+                    if v == OBJS[fresh]:
+                        fresh += 1          # keep later inserted objects unique
             check('C18.membership_current', inst.s == ((v if kind == 0 else [v]) if accepted else prev), dict(info, v=v, readback=True))
         objs = [vv for _, vv in model]
         named = style == 1 and len(model) > 0 or (style == 1 and bool(sel.names))
         check('C18.list_view', list(sel.objects) == objs, info)
         if style == 1:
-            check('C18.names_view', list(sel.names.items()) == model if model else not sel.names, info)
-            check('C18.items_view', list(sel.objects.items()) == model, info)
-            check('C18.range_view', list(sel.get_range().items()) == model, info)
+            named = [(kk, vv) for kk, vv in model if kk is not None]
+            check('C18.names_view', list(sel.names.items()) == named if named else not sel.names, info)
+            if named:
+                check('C18.items_view', list(sel.objects.items()) == named, info)
+            check('C18.range_view', list(sel.get_range().items()) == [(kk if kk is not None else vv, vv) for kk, vv in model], info)
         else:
             check('C18.names_view', not sel.names, info)
             check('C18.items_view', list(sel.objects.items()) == [(x, x) for x in objs], info)
@@ -216,13 +226,18 @@ def shards(tier):
                 for o1 in range(nops):
                     if tier == 'quick':
                         out.append(dict(name='s%dk%dl%d_o%d' % (style, kind, level, o1), module='harness.c18', fn='prog',
-                                        consts=dict(style=style, kind=kind, level=level, k=k, o1=o1, o3=0, i3=0, j3=0),
+                                        consts=dict(style=style, kind=kind, level=level, k=k, o1=o1, o3=0, i3=0, j3=0, cos=True),
                                         budget_s=90))
                     else:
                         for o2 in range(nops):
                             out.append(dict(name='s%dk%dl%d_o%d_%d' % (style, kind, level, o1, o2), module='harness.c18',
-                                            fn='prog', consts=dict(style=style, kind=kind, level=level, k=k, o1=o1, o2=o2),
+                                            fn='prog', consts=dict(style=style, kind=kind, level=level, k=k, o1=o1, o2=o2, cos=True),
                                             budget_s=240))
+    # check_on_set=False on a dict-declared Selector: [assign an unknown value, add a key, re-assign / pop / update that key ...]
+    for o2 in range(N_DICT_OPS):
+        for o3 in (range(N_DICT_OPS) if tier != 'quick' else (0, 1, 2)):
+            out.append(dict(name='cosF_%d_%d' % (o2, o3), module='harness.c18', fn='prog',
+                            consts=dict(style=1, kind=0, level=1, k=3, cos=False, o1=N_DICT_OPS - 1, o2=o2, o3=o3), budget_s=60))
     return out
 
 
